@@ -125,6 +125,28 @@ class Gen:
             cur = cname
             self.tags.add("level:enclosing-component-%d" % (d + 1))
         self.top = cur
+        if r.random() < 0.25 and depth >= 1:
+            # the modified classes live in a package; the first enclosing (wrapper) class has the same
+            # short name as the library class it instantiates (Lib.S inside a top-level S)
+            inner = [c for c in lib["classes"] if c["name"] in ("TK", "S", "E", "E2")]
+            outer = [c for c in lib["classes"] if c["name"] not in ("TK", "S", "E", "E2")]
+            first_wrapper = outer[0]
+            target = first_wrapper["comps"][1]["type"]          # S, E or E2
+            for c in inner:
+                for comp in c.get("comps", []):
+                    pass
+            first_wrapper["comps"][1]["type"] = "Lib." + target
+            old_name = first_wrapper["name"]
+            first_wrapper["name"] = target
+            for c in outer[1:]:
+                for comp in c["comps"]:
+                    if comp["type"] == old_name:
+                        comp["type"] = target
+            if self.top == old_name:
+                self.top = target
+            lib["classes"] = [{"name": "Lib", "kind": "package", "alias": None, "extends": [], "comps": [], "classes": inner,
+                               "eqs": [], "ieqs": [], "connects": []}] + outer
+            self.tags.add("names:wrapper-class-shares-short-name-with-library-class")
         return lib
 
     def target_mods(self, subpath, sp, level, scope_names=None, full_path=None):
